@@ -36,6 +36,10 @@ def run(sub):
                     print('       goal', str(goal)[:1500])
                     if v.status == 'sat':
                         print('       model', smt.model_to_dict(v.model))
+                    if '--split' in sys.argv and z3.is_and(goal):
+                        for ci, conj in enumerate(goal.children()):
+                            v2 = smt.discharge(pc, conj)
+                            print('       conjunct %d: %s [%.2fs] %s' % (ci, v2.status, v2.time, str(conj)[:300].replace('\n', ' ')))
                     if '--pc' in sys.argv:
                         for t in pc:
                             print('       pc  ', str(t)[:300])
